@@ -220,4 +220,29 @@ CHECKS = {
         'technique': 'Coq proof (permutation inverse, assignment by induction over call lists; field for the library '
                      'equations regenerated from the XML) + exact vm_compute correspondence of recorded solver calls',
     },
+    'C11': {
+        'text': 'Machine-checked proof (Properties/C11.v, axiom-free): the configuration calls of PKPDModel '
+                '(set_administration, set_dosing_regimen, set_outputs, set_parameter_names, set_output_names, '
+                'enable_sensitivities, copy — including every rejected call) are modelled as a state machine over the '
+                'object\'s fields (model, name tables, name maps, outputs, solver object with its protocol and '
+                'sensitivity request, flags). Proved for every finite history: the object stays consistent (model, '
+                'tables and solver belong to the reported administration; the solver carries the reported regimen; '
+                'maps cover exactly the published parameters / selected outputs; the flag matches the solver); a '
+                'consistent object is THE realisation of its configuration (conc (cfg_of s) = s), so histories ending in '
+                'the same configuration are indistinguishable now and after any further calls; simulate() is C09\'s '
+                'simulate for the model of the reported administration; a copy has the same configuration with '
+                'sensitivities off. Tied to /repo on every run: all call sequences up to length 2 (thorough: 3) over '
+                'an 11-call alphabet and random histories up to length 12 on library and random SBML models, every '
+                'observation after every call compared exactly (vm_compute) with the model; directly: a fresh model '
+                'with only the net configuration answers identically (names, counts, regimen, simulated arrays, '
+                'sensitivities), copies answer like their originals and objects left behind at a copy are unaffected by '
+                'later calls, also for ReducedMechanisticModel wrappers.',
+        'note': 'Trusted: Coq kernel, stdlib (no axioms); hand-written model; myokit\'s model surgery for an '
+                'administration is an oracle (variant table read from fresh chi models); harness/simsub.py stands in for '
+                'the native solver. Two fix: commits precede this check; one open known finding (copy() switches '
+                'sensitivities off, as documented). Outputs of the dose compartment across administration changes and '
+                'duplicate output selections are not modelled.',
+        'technique': 'Coq proof (invariant by induction over call histories + refinement to a configuration record) + '
+                     'exact vm_compute correspondence of every observation after every call',
+    },
 }
